@@ -51,7 +51,7 @@ V(k, verdict, detail) == [vi |-> k, codec |-> "", ne |-> FALSE, check |-> "FUZZ"
 
 ObsVerdict(L, k) ==
   LET o == L.obs[k] IN
-  IF o.mem > MemBound(o.n, L.depth) THEN V(k, "reject", "dec-memory:" \o o.cls \o "@" \o o.site \o " applicable:{}")
+  IF o.mem > MemBound(o.n, L.depth) THEN V(k, "reject", "dec-memory:" \o o.cls \o "@" \o o.site \o Applicable(L))
   ELSE IF o.st = "budget" THEN V(k, "reject", "dec-budget@" \o o.site \o Applicable(L))
   ELSE IF o.st = "timeout" THEN V(k, "reject", "dec-timeout@" \o o.site \o Applicable(L))
   ELSE IF o.ev > WorkBound(o.n, L.depth) THEN V(k, "reject", "dec-work@" \o o.site \o Applicable(L))
